@@ -37,6 +37,7 @@ using Protos = eventpp::HeterTuple<void(), void(Big &), void(int), void(const st
 static const int NP = 5;
 
 using Queue = eventpp::HeterEventQueue<int, Protos>;
+using HCL = eventpp::HeterCallbackList<Protos>;   // the stand-alone list of the scripts (event key 7 of the model)
 using eventpp::internal_::CanInvoke;
 using eventpp::internal_::FindPrototypeByArgs;
 using eventpp::internal_::FindPrototypeByCallable;
@@ -48,13 +49,16 @@ static void called(int key, long hid, long cb, const std::string & val);
 // a listener whose callback id ends in 9, called with a value v with v % 4 != 3, enqueues (key, int, v + 1)
 // while it runs (Util/HeterSpawn.lean, `harnessSpawn`)
 static void maybeSpawn(int key, long cb, long v);
+// a callback of the stand-alone list whose id ends in 8 assigns an empty list to it while it runs ("remove everything"):
+// the invocation in flight goes on over the callbacks it started on (Util/HeterSpawn.lean, `stepC`)
+static void maybeClear(int key, long cb);
 // callback kinds
-struct K0 { int key; long hid, cb; void operator()() const { called(key, hid, cb, "-"); maybeSpawn(key, cb, 0); } };
-struct K1 { int key; long hid, cb; void operator()(int v) const { called(key, hid, cb, std::to_string(v)); maybeSpawn(key, cb, v); } };
-struct K2 { int key; long hid, cb; void operator()(const std::string & v) const { called(key, hid, cb, v); maybeSpawn(key, cb, std::atol(v.c_str() + 1)); } };
-struct K3 { int key; long hid, cb; void operator()(const Big & v) const { called(key, hid, cb, v.ok() ? "B" + std::to_string(v.v) : "corrupt"); maybeSpawn(key, cb, v.v); } };
-struct K4 { int key; long hid, cb; void operator()(long v) const { called(key, hid, cb, std::to_string(v)); maybeSpawn(key, cb, v); } };
-struct K5 { int key; long hid, cb; void operator()(Big & v) const { called(key, hid, cb, v.ok() ? "B" + std::to_string(v.v) : "corrupt"); maybeSpawn(key, cb, v.v); } };
+struct K0 { int key; long hid, cb; void operator()() const { called(key, hid, cb, "-"); maybeSpawn(key, cb, 0); maybeClear(key, cb); } };
+struct K1 { int key; long hid, cb; void operator()(int v) const { called(key, hid, cb, std::to_string(v)); maybeSpawn(key, cb, v); maybeClear(key, cb); } };
+struct K2 { int key; long hid, cb; void operator()(const std::string & v) const { called(key, hid, cb, v); maybeSpawn(key, cb, std::atol(v.c_str() + 1)); maybeClear(key, cb); } };
+struct K3 { int key; long hid, cb; void operator()(const Big & v) const { called(key, hid, cb, v.ok() ? "B" + std::to_string(v.v) : "corrupt"); maybeSpawn(key, cb, v.v); maybeClear(key, cb); } };
+struct K4 { int key; long hid, cb; void operator()(long v) const { called(key, hid, cb, std::to_string(v)); maybeSpawn(key, cb, v); maybeClear(key, cb); } };
+struct K5 { int key; long hid, cb; void operator()(Big & v) const { called(key, hid, cb, v.ok() ? "B" + std::to_string(v.v) : "corrupt"); maybeSpawn(key, cb, v.v); maybeClear(key, cb); } };
 
 template <typename Proto> struct ProtoArgs;
 template <typename R, typename ...A> struct ProtoArgs<R(A...)> {
@@ -77,6 +81,8 @@ struct World {
 	Queue q;
 	std::unique_ptr<Queue> shadow;     // a copy of q taken by `hcopy`: independent of q from then on
 	std::vector<Queue::Handle> handles;
+	HCL hl;
+	std::map<long, HCL::Handle> hlHandles;
 	std::vector<std::string> out;
 	void res(const std::string & r) { out.push_back("ev res " + r); }
 };
@@ -85,6 +91,9 @@ static void called(int key, long hid, long cb, const std::string & val) {
 }
 static void maybeSpawn(int key, long cb, long v) {
 	if(cb % 10 == 9 && v >= 0 && v % 4 != 3) gw->q.enqueue(key, (int)(v + 1));
+}
+static void maybeClear(int key, long cb) {
+	if(key == 7 && cb % 10 == 8) gw->hl = HCL();
 }
 static void predCalled(const char * kind, const std::string & val) { gw->out.push_back(std::string("ev pred ") + kind + " " + val); }
 bool F0::operator()() const { predCalled("0", "-"); return test(0); }
@@ -183,9 +192,43 @@ int main(int argc, char ** argv) {
 			w->handles.push_back(h);
 			w->res("h" + std::to_string(hid));
 		}
+		else if(op == "hlappend") {
+			int kind; long cb; is >> kind >> cb;
+			long hid = (long)w->handles.size();
+			HCL::Handle h;
+			switch(kind) {
+			case 0: h = w->hl.append(K0{7, hid, cb}); break;
+			case 1: h = w->hl.append(K1{7, hid, cb}); break;
+			case 2: h = w->hl.append(K2{7, hid, cb}); break;
+			case 3: h = w->hl.append(K3{7, hid, cb}); break;
+#if VH_ORDER == 2
+			case 5: h = w->hl.append(K5{7, hid, cb}); break;
+#endif
+			default: h = w->hl.append(K4{7, hid, cb}); break;
+			}
+			w->hlHandles[hid] = h;
+			w->handles.push_back(Queue::Handle());   // keeps the numbering; never handed to the queue
+			w->res("h" + std::to_string(hid));
+		}
+		else if(op == "hlinvoke") {
+			int kind; long v; is >> kind >> v;
+			switch(kind) {
+			case 0: w->hl(); break;
+			case 1: w->hl((int)v); break;
+			case 2: w->hl(std::string("s") + std::to_string(v)); break;
+			case 3: w->hl(Big(v)); break;
+			case 4: w->hl((long)v); break;
+			case 6: { Big lv(v); w->hl(lv); break; }
+			default: w->hl((short)v); break;
+			}
+			w->res("unit");
+		}
 		else if(op == "hremove") {
 			int key; long h; is >> key >> h;
-			if(h < 0 || (size_t)h >= w->handles.size()) w->res("false");
+			bool isHl = w->hlHandles.count(h) != 0;
+			if(key == 7) w->res(isHl && w->hl.remove(w->hlHandles[h]) ? "true" : "false");
+			else if(isHl) w->res("false");
+			else if(h < 0 || (size_t)h >= w->handles.size()) w->res("false");
 			else w->res(w->q.removeListener(key, w->handles[h]) ? "true" : "false");
 		}
 		else if(op == "hdispatch" || op == "henqueue") {
